@@ -3,3 +3,4 @@ import FlowCalModel.Py
 import FlowCalModel.Text
 import FlowCalModel.Data
 import FlowCalModel.File
+import FlowCalModel.Index
